@@ -795,8 +795,16 @@ func afterClass(k int, o Obs, ops []Op, controllersBefore, controllersNow int) s
 
 // runHistory executes a history and checks every observation against the model.
 func runHistory(h *History) {
-	dir := app.ScratchDir(base, "store")
-	defer os.RemoveAll(dir)
+	top := app.ScratchDir(base, "store")
+	defer os.RemoveAll(top)
+	dir := top
+	// the storage directory is wherever the application puts it (by default a directory named after the accessory):
+	// every fourth history uses a name with blanks, brackets, wildcards or non-ASCII letters
+	if odd := []string{"Lamp [1]", "a*b?", "Küche 居間", "[", "{x}", " dot.dir "}; h.N%4 == 2 {
+		dir = filepath.Join(top, odd[(h.N/4)%len(odd)])
+		os.MkdirAll(dir, 0o755)
+		run.Distinct("storage_directory_name", filepath.Base(dir))
+	}
 	ctx := &hctx{h: h}
 	var m *hmodel
 	completed := 0
